@@ -84,7 +84,7 @@ class Rendered(object):
 
 
 def render_feature(shape, fidx=0, markers=False, indent="  ", blank=0, step_kw=("Given", "When", "Then", "And", "But"),
-                   filename=None, ptags=()):
+                   filename=None, ptags=(), tag_lines=False):
     """Render one feature shape.  Returns a Rendered with .lines and the index."""
     out = Rendered()
     out.filename = filename or "f%d.feature" % fidx
@@ -95,7 +95,12 @@ def render_feature(shape, fidx=0, markers=False, indent="  ", blank=0, step_kw=(
         return len(L)
 
     def emit_tags(tags, ind):
-        if tags:
+        if tags and tag_lines and len(tags) > 1:
+            # the same tags written on two tag lines with a comment between them
+            emit(ind + "@" + tags[0])
+            emit(ind + "# more tags")
+            emit(ind + " ".join("@" + t for t in tags[1:]))
+        elif tags:
             emit(ind + " ".join("@" + t for t in tags))
 
     def reg(e):
